@@ -57,4 +57,8 @@ Dump == PrintT(<<"CASE", ToJson(c)>>)
 
 (* K(n) tabulated, exported for the comparison with GetGroupK *)
 ASSUME PrintT(<<"KTABLE", ToJson([n \in 1..20 |-> K(n)])>>)
+
+(* group sizes (beyond the default maximum) at which rounding 51 n / 100 up and "floor + 1" differ:
+   a DKG degree derived one way and a signing threshold derived the other way disagree exactly there *)
+ASSUME PrintT(<<"BIGN", ToJson({n \in 11..128 : (51 * n) % 100 = 0})>>)
 =============================================================================
